@@ -204,8 +204,13 @@ def job_record_run(nant, nblocks, nsb, prior=None):
     fs = MemFS()
     P, taps, Wb, npol = 4, 2, 3, 2
     with volt_patches(opener=fs.open):
-        be, ant, ws = C02.build(P, taps, Wb, nsb, npol, nant, 8, 0, 2, 2)
-        if prior:
+        if prior == 'renumbered':
+            # num_subblocks is the memory / speed knob: built with one value, re-assigned on the existing backend
+            be, ant, ws = C02.build(P, taps, Wb, (nsb % 3) + 1, npol, nant, 8, 0, 2, 2)
+            be.num_subblocks = nsb
+        else:
+            be, ant, ws = C02.build(P, taps, Wb, nsb, npol, nant, 8, 0, 2, 2)
+        if prior in ('completed', 'aborted'):
             orig_get = ant.get_samples
             if prior == 'aborted':
                 def failing(n, orig_get=orig_get):
@@ -427,7 +432,7 @@ def replay_record(p):
             for nsb in (1, 2, 3):
                 be, src = _real_backend()
                 be.num_subblocks = nsb
-                if p.get('prior'):
+                if p.get('prior') in ('completed', 'aborted'):
                     state = {'fail': p['prior'] == 'aborted', 'calls': 0}
 
                     def flaky(ts, state=state):
@@ -584,7 +589,7 @@ def main():
             for nsb in (1, 2):
                 jobs.append(('job_record_run', (nant, nblocks, nsb)))
                 if nblocks == 2:
-                    for prior in ('completed', 'aborted'):
+                    for prior in ('completed', 'aborted', 'renumbered'):
                         jobs.append(('job_record_run', (nant, nblocks, nsb, prior)))
     for (delays, nb_, nsb_) in (((0, 3), 2, 1), ((2, 0, 5), 1, 2), ((0, 0), 2, 2)):
         jobs.append(('job_record_run_array', (delays, nb_, nsb_)))
